@@ -20,7 +20,7 @@ RULE = ("For generated valid objects of all seven formats (composeinfo, images, 
         "exist. After every dump that raised, the bytes at the path must equal the bytes before (or the path must still not "
         "exist) and the directory must hold no stray file; with no fault the dump must succeed and change the file. One "
         "evaluation = one (object, fault point, k, destination state) trial; non-trivial = the fault fired after the "
-        "top-level validation had passed (inside a nested writer); distinct = object hash + fault point. Also planted: values no validator looks at and no writer can write (non-string image name, a frozenset in a payload), and a size class of large objects (25 000 / 120 000 manifest entries, thousands of images / variants) for size-dependent writer paths.")
+        "top-level validation had passed (inside a nested writer); distinct = object hash + fault point. Also planted: values no validator looks at and no writer can write (non-string image name, a frozenset in a payload), and a size class of large objects (25 000 / 70 000 manifest entries, thousands of images / variants) for size-dependent writer paths.")
 ASSUMPTIONS = ["faults are injected by shadowing the validator on the instance inside the harness process; no hook in productmd is needed",
                "a failure of json/ConfigParser serialisation itself (non-serialisable payload) is not a validation failure and is not injected"]
 FLOORS = {"distinct_nontrivial": 1500, "composeinfo": 200, "images": 200, "treeinfo": 200, "rpms": 20, "modules": 20, "extra_files": 20}
@@ -211,6 +211,7 @@ def _swap_item(container, key, value, missing=object()):
 
 
 UNWRITABLE = frozenset([1, 2])      # no validator looks at it, and neither JSON nor INI can write it
+UNENCODABLE = "caf\udce9"           # a lone surrogate (os.listdir() of a non-UTF-8 file name): passes every validator, cannot be encoded
 
 
 def _result(kind, units, trials):
@@ -230,6 +231,9 @@ def composeinfo_case(desc):
         plants.append(("variant[%s].name" % v.uid, ) + _swap(v, "name", ""))
         plants.append(("variant[%s].type" % v.uid, ) + _swap(v, "type", "bogus"))
         plants.append(("variant[%s].arches" % v.uid, ) + _swap(v, "arches", set()))
+    plants.append(("release.name=unencodable", ) + _swap(obj.release, "name", UNENCODABLE))
+    for v in variants[:2]:
+        plants.append(("variant[%s].name=unencodable" % v.uid, ) + _swap(v, "name", UNENCODABLE))
     for v in variants[:3]:
         arch = sorted(v.arches)[0]
         plants.append(("variant[%s].paths.os_tree[%s]=unwritable" % (v.uid, arch), ) + _swap_item(v.paths.os_tree, arch, UNWRITABLE))
@@ -251,6 +255,7 @@ def images_case(desc):
         plants.append(("image[%s].checksums" % img.path, ) + _swap(img, "checksums", {}))
     for img in imgs[:3]:
         plants.append(("image[%s].checksums[md5]=unwritable" % img.path, ) + _swap_item(img.checksums, "md5", UNWRITABLE))
+        plants.append(("image[%s].volume_id=unencodable" % img.path, ) + _swap(img, "volume_id", UNENCODABLE))
     u2, t2 = real_invalid_trials("images", obj, obj.dump, plants)
     return _result("images", units + u2, trials + t2)
 
@@ -268,6 +273,7 @@ def _manifest_case(kind, cls, build):
     payload = getattr(obj, kind)
     if isinstance(payload, dict):
         plants.append(("payload[zzz]=unwritable", ) + _swap_item(payload, "zzz", UNWRITABLE))
+        plants.append(("payload[zzz]=unencodable", ) + _swap_item(payload, "zzz", {"path": "Packages/" + UNENCODABLE + "-1.0-1.x86_64.rpm"}))
         for variant in sorted(payload)[:1]:
             if isinstance(payload[variant], dict):
                 plants.append(("payload[%s][zzz]=unwritable" % variant, ) + _swap_item(payload[variant], "zzz", {"x": UNWRITABLE}))
@@ -328,6 +334,7 @@ def treeinfo_case(case):
     for v in [v for p, v in reachable(obj) if type(v).__name__ == "Variant"][:5]:
         plants.append(("variant[%s].type" % v.uid, ) + _swap(v, "type", "bogus"))
         plants.append(("variant[%s].id" % v.uid, ) + _swap(v, "id", "a-b"))
+    plants.append(("release.name=unencodable", ) + _swap(obj.release, "name", UNENCODABLE))
     for plat in sorted(obj.images.images)[:2]:
         table = obj.images.images[plat]
         plants.append(("images[%s][None]" % plat, ) + _swap_item(table, None, "vmlinuz"))          # non-string image name among string names
@@ -346,7 +353,8 @@ def discinfo_case(case):
     def change():
         obj.description = obj.description + "X"
     units, trials = run_trials("discinfo", obj, obj.dump, change)
-    plants = [("timestamp", ) + _swap(obj, "timestamp", 0), ("description", ) + _swap(obj, "description", ""), ("disc_numbers", ) + _swap(obj, "disc_numbers", [])]
+    plants = [("timestamp", ) + _swap(obj, "timestamp", 0), ("description", ) + _swap(obj, "description", ""), ("disc_numbers", ) + _swap(obj, "disc_numbers", []),
+              ("description=unencodable", ) + _swap(obj, "description", UNENCODABLE)]
     u2, t2 = real_invalid_trials("discinfo", obj, obj.dump, plants)
     return _result("discinfo", units + u2, trials + t2)
 
@@ -395,8 +403,8 @@ def c06_rich(fmt):
     return c06.rich(fmt)
 
 
-LARGE = {"quick": [("rpms", 25000), ("modules", 3000), ("extra_files", 25000), ("images", 2500), ("composeinfo", 600), ("treeinfo", 600)],
-         "thorough": [("rpms", 25000), ("rpms", 120000), ("modules", 30000), ("extra_files", 120000), ("images", 20000), ("composeinfo", 5000), ("treeinfo", 5000)]}
+LARGE = {"quick": [("rpms", 25000), ("modules", 3000), ("extra_files", 25000), ("images", 1500), ("composeinfo", 600), ("treeinfo", 600)],
+         "thorough": [("rpms", 25000), ("rpms", 70000), ("modules", 12000), ("extra_files", 70000), ("images", 3000), ("composeinfo", 2500), ("treeinfo", 2500)]}
 
 
 def large_case(case):
@@ -409,7 +417,8 @@ def large_case(case):
         must("dump-valid-large-object", obj.dump, dest)
         with open(dest, "rb") as fo:
             old = fo.read()
-        victims = [(p, i) for p, i in reachable(obj) if type(i).__name__ in ("Compose", "Header", "Release", "Tree")][:3]
+        # (not reachable(): walking a payload of 10^5 plain entries is wasted time)
+        victims = [("obj." + a, getattr(obj, a)) for a in ("compose", "header", "release", "tree") if hasattr(obj, a)][:3]
         for path, inst in victims:
             name = sorted(n_ for n_ in dir(inst) if n_.startswith("_validate") and callable(getattr(inst, n_)))[0]
             for existing in (True, False):
